@@ -31,6 +31,10 @@ CHECKS['C05'] = dict(engine='progenum', category='exploration', section='3/C05',
    technique='exhaustive enumeration of the finite product method x transport x credentials x graph x policy on the real interceptor chain (in-memory gRPC server and generated direct clients), against a reference policy evaluator',
    text='Every method listed in the four generated service descriptors (read from the descriptors, so a new RPC is included automatically) is invoked through a real grpc.Server with the production interceptor chain on an in-memory listener and through the generated DirectClient shims used by the HTTP gateway, with 4 credentials x 2 graphs x 10 policies (no accounts, allow-all, deny-all, wildcard-graph, wildcard-action, one per operation class on g1); BulkAdd additionally with 8 element streams. The stub handler must run iff the reference policy grants (user, graph named in the request, operation class); denied calls must fail with an authentication/permission status.',
    note='Operation class and request graph come from an independent rule in c05.go; real Casbin enforcer (model of test/model.conf) and real BasicAuth in the loop; the unexported request-logging interceptors are not in the chain.')
+CHECKS['C20'] = dict(engine='progenum', category='exploration', section='3/C20',
+   technique='exhaustive enumeration of entry point x argument position x hostile string on the real SQL drivers over a recording database/sql driver; every statement lexed and compared structurally with the benign call',
+   text='All 19 entry points of gdbi.GraphDB/GraphInterface that take an id, label or graph name (a reflection audit fails the check if an interface method is neither driven nor known to take no client string) x every client-string position x 14 hostile strings (quotes, doubled quotes, backslashes, comment markers, separators, $1, %s, NUL, unicode, classic injections; for existing-sql both halves of the table-qualified gid) on the real psql and existing-sql drivers. Each recorded statement must lex, have a token structure that the benign call also produces, and carry the client string only as a bound argument or as the literal that decodes to it.',
+   note='PostgreSQL lexing rules with standard_conforming_strings=on; the recording driver returns empty result sets, so row-dependent follow-up statements are not reached. Interpolation sites are listed one by one in known_findings.txt; a new site is a fresh violation.')
 NA_REASON = 'check not built yet in this session (planned in DESIGN.md section 3); nothing is claimed for it'
 
 m = {
